@@ -143,6 +143,7 @@ def check_case(case) -> CaseResult:
     tree = Tree(spec)
     idx = Index(spec)
     nt = False
+    base_runs = {}
     try:
         for engine in ("sync", "async"):
             base = None
@@ -156,6 +157,7 @@ def check_case(case) -> CaseResult:
                 tr = trace_of(run)
                 if base is None:
                     base = tr
+                    base_runs[engine] = run
                     nt = nt or _nontrivial(tree, idx, run)
                 elif tr != base:
                     d = first_diff(base, tr)
@@ -164,6 +166,21 @@ def check_case(case) -> CaseResult:
                     break
     finally:
         set_salt(None)
+    # ---- "... or which interpreter is used": the two engines' traces must agree as well
+    if len(base_runs) == 2 and not res.violations and not res.inconclusive:
+        from .c05 import _cut, _diff, _step_view
+
+        rs, ra = base_runs["sync"], base_runs["async"]
+        maxit = spec.get("maxIterations") or 1000
+        if not (_cut(rs, maxit) or _cut(ra, maxit)):
+            for i, (a, b) in enumerate(zip(rs.steps, ra.steps)):
+                va, vb = _step_view(a), _step_view(b)
+                if a.exc is not None and b.exc is None:
+                    va["exc"] = vb["exc"] = None
+                d = _diff(va, vb)
+                if d:
+                    res.violate(f"engines-disagree|{d[0]}", {"step": i, "op": a.op, "diff": d[1]})
+                    break
     res.extra_evals -= 1
     res.nontrivial = nt
     res.sample = {"states": {n.id: n.kind for n in tree.nodes.values()}, "history": history, "salts": salts}
